@@ -695,7 +695,9 @@ def run(ctx: vlib.Ctx):
     # (T) kernel K105a (FieldUnpackerCodeBlockBuilder.build): the emitted field block computes Errs.field_step; the program built
     # from the emitted blocks is Errs.from_dict
     ctx.theorems("props/C05_fieldblock.vo", ["C05_field_block_emitted", "C05_field_blocks_emitted", "C05_from_dict_emitted",
-                                             "C05_emitted_outcomes", "C05_emitted_first_bad"], kernels=["K105a"])
+                                             "C05_emitted_outcomes", "C05_emitted_first_bad", "C05_frame_emitted",
+                                             "C05_allowed_keys_emitted", "C05_program_emitted", "C05_program_extra_exact"],
+                 kernels=["K105a", "K105b"])
     # (T) kernel K16: emitted handler classes + exceptions.py hierarchy, re-translated from /repo on every run
     ctx.theorems("props/C05_handlers.vo", ["C05_k16_handlers_as_modelled", "C05_k16_documented_pass_through",
                                            "C05_k16_model_patterns"], kernels=["K16"])
@@ -770,6 +772,7 @@ def run(ctx: vlib.Ctx):
                 for p in roots:
                     if fmetas is not None:
                         fb.add_program(s["cls"], p, fmetas)
+                    fb.add_frame(s, p)
                     shape_checked += 1
                     pr = shape_problems(p, names, idents, s["forbid"])
                     if pr:
